@@ -1,4 +1,5 @@
 import GodiProofs.Container.History
+import GodiProofs.Container.BuildOnce
 /-!
 # C01 — Singleton: constructed exactly once, the same instance everywhere
 
@@ -59,6 +60,66 @@ theorem same_instance_member (beh : Beh) (st : State) (f s : Nat) (d : Desc) (v 
   unfold resolveDesc
   simp only [hl, hv]
 
+/-- EXACTLY ONCE DURING BUILD: for every registration list satisfying the structural facts the
+collection guarantees (`WF`, `RegWF`), every creation order the graph may produce that covers the
+singleton descriptors, and every constructor behaviour: if the run-time phases of Build succeed, the
+constructor of every (non-instance) singleton registration has succeeded exactly once — also when it
+yields several services (multiple returns, result object, aliases: all descriptors of a registration
+share the constructor id) — and no constructor of singleton registrations has succeeded twice. -/
+theorem build_runs_each_singleton_ctor_exactly_once (beh : Beh) (descs : List Desc) (order : List Nat)
+    (wf : WF descs) (rw' : RegWF descs) (st : State) (h : buildRuntime beh descs order = (st, .ok ())) :
+    (∀ c, SingCtor descs c → ctorCount st.log c ≤ 1) ∧
+    (∀ d ∈ descs, d.life = .singleton → (∀ v, d.kind ≠ .inst v) → d.id ∈ order → ctorCount st.log d.ctor = 1) := by
+  unfold buildRuntime at h
+  have hn : newScope beh { descs := descs } none 0 false = (allocScope { descs := descs } none 0, .ok 0) := by
+    unfold newScope; simp
+  simp only [hn] at h
+  have inv0 : BuildInv descs (allocScope { descs := descs } none 0) :=
+    ⟨rfl, by intro c _; simp [allocScope], by intro c _ h; simp [allocScope] at h,
+     by intro d _ _ _ h; simp [allocScope, lookup] at h⟩
+  have inv := createSingletons_inv beh descs wf rw' order _ inv0
+  have hstored := createSingletons_ok_stored beh descs wf rw' order _ inv0
+  generalize createSingletons beh (allocScope { descs := descs } none 0) order = r at h inv hstored
+  obtain ⟨st2, res⟩ := r
+  cases res with
+  | error e => simp at h
+  | ok u =>
+    simp only [] at h inv hstored
+    obtain ⟨_, hst⟩ := hstored (by trivial)
+    -- the root scope's initializers only add events of scoped descriptors
+    have hinit : InitOK { st2 with initializers := (descs.filter isInitializer).map (·.id) } := by
+      intro id hid d hd
+      simp only [List.mem_map, List.mem_filter] at hid
+      obtain ⟨d0, ⟨hd0, hi0⟩, hid0⟩ := hid
+      have hd0' : findDesc descs d0.id = some d0 := wf.uniqueIds d0 hd0
+      have : findDesc st2.descs id = some d := hd
+      rw [inv.descsEq, ← hid0, hd0'] at this
+      injection this with this; subst this
+      simp only [isInitializer, Bool.and_eq_true, beq_iff_eq] at hi0
+      exact hi0.1
+    have hstable := runInitializers_stable beh rootScope
+      ((descs.filter isInitializer).map (·.id)) { st2 with initializers := (descs.filter isInitializer).map (·.id) }
+      (by show WF st2.descs; rw [inv.descsEq]; exact wf) (fun id hid d hd => hinit id hid d hd)
+    generalize runInitializers beh { st2 with initializers := (descs.filter isInitializer).map (·.id) } rootScope
+      ((descs.filter isInitializer).map (·.id)) = r2 at h hstable
+    obtain ⟨st4, res4⟩ := r2
+    cases res4 with
+    | error e => simp at h
+    | ok u4 =>
+      simp only [Prod.mk.injEq, and_true] at h
+      subst h
+      obtain ⟨new, hlog, hnew⟩ := hstable.log
+      have hcnt : ∀ c, SingCtor descs c → ctorCount st4.log c = ctorCount st2.log c := by
+        intro c hc
+        rw [hlog]
+        show ctorCount (st2.log ++ new) c = _
+        rw [ctorCount_append, ctorCount_nonSingleton st2.descs new c (by rw [inv.descsEq]; exact hc) hnew]
+        rfl
+      refine ⟨fun c hc => by rw [hcnt c hc]; exact inv.atMost c hc, ?_⟩
+      intro d hd hl hk hin
+      rw [hcnt d.ctor (singCtor_of descs wf rw' d hd hl)]
+      exact inv.counted d hd hl hk (hst d.id hin d (wf.uniqueIds d hd) hl)
+
 /-! non-vacuity: a two-service configuration (singleton 0 ← transient 1), built by the model, meets
 `WF` and `InitOK`'s decidable parts, and the table holds the singleton -/
 def exDescs : List Desc :=
@@ -66,6 +127,9 @@ def exDescs : List Desc :=
    { id := 1, ident := ⟨4, 0, 0⟩, life := .transient, ctor := 2, kind := .plain, deps := [{ ty := 3 }] }]
 
 example : (lookup (buildRuntime {} exDescs [0, 1]).1.singletons ⟨3, 0, 0⟩) = some (.inst 1) := by decide
+/-- the structural hypotheses are satisfiable: the example registry meets `WF` and `RegWF` -/
+example : WF exDescs ∧ RegWF exDescs := by
+  refine ⟨⟨?_, ?_⟩, ⟨?_, ?_, ?_, ?_, ?_⟩⟩ <;> simp [SibLife, exDescs, findDesc] <;> decide
 example : okIs (scopeGet {} (buildRuntime {} exDescs [0, 1]).1 0 4 0).2 (.inst 2) = true := by decide
 
 end Godi.Props.C01
